@@ -170,7 +170,7 @@ class Gen:
                 if not cands:
                     break
                 name = r.choice(cands)
-                strata = STRATA_POOL[name][: r.randint(1, 3)]
+                strata = STRATA_POOL[name][: r.randint(want.get("min_strata", 1), 3)]
                 scomps = list(comps) if r.random() < 0.6 else sorted(r.sample(comps, r.randint(1, ncomp)), key=comps.index)
             if name in used:
                 continue
@@ -251,7 +251,7 @@ class Gen:
             iadj = {}
             if not want.get("unadjusted", False):
                 for c_ in inf:
-                    if c_ in scomps and r.random() < 0.3:
+                    if c_ in scomps and r.random() < want.get("p_iadj", 0.3):
                         iadj[c_] = {s: (None if r.random() < 0.3 else
                                         ({"mul": self.rate(allow_time=False)} if r.random() < 0.7
                                          else {"ovr": self.rate(allow_time=False)})) for s in strata}
@@ -420,6 +420,11 @@ class Gen:
                         r.shuffle(ks)
                         filt = {u_: r.choice(strat_strata[u_]) for u_ in ks}
                     rq = {"type": "comp", "names": r.sample(comps, r.randint(1, len(comps))), "filt": filt}
+                    if filt and len(used) >= 2 and r.random() < 0.5:
+                        # one compartment name, one stratum of one of several stratifications: the selected columns
+                        # need not be adjacent
+                        rq["names"] = [r.choice(comps)]
+                        rq["filt"] = {used[-1]: r.choice(strat_strata[used[-1]])} if r.random() < 0.6 else filt
                     if r.random() < 0.15:
                         # the union of two overlapping groups of compartments: a name listed twice still counts once
                         rq["names"] = rq["names"] + [r.choice(rq["names"])]
